@@ -173,6 +173,13 @@ class C18Engine(Engine):
                         if cls == "SimpleTaskPool":
                             c["sfunc"] = "quick"
                         cases.append(c)
+        # literals nested or chained thousands of levels deep: the conversion fails in the depths of the parser (MemoryError, RecursionError,
+        # SyntaxError - whatever this interpreter says), which is a conversion failure like any other
+        deep = ["(1," * 3000, "[" * 2500, "1+" * 3000 + "1", "{1:" * 1500, "-" * 4000 + "1 2"]
+        for text in deep:
+            for line in ("map vt.ctl.hmod.quick " + text, "apply vt.ctl.hmod.quick --args " + text, "starmap vt.ctl.hmod.quick " + text):
+                cases.append({"cls": "TaskPool", "size": None, "width": 80, "nsess": 1, "stop_phase": False, "lines": [
+                    {"kind": "valid", "text": "num-running", "s": 0}, {"kind": "badargs", "text": line, "s": 0}, {"kind": "valid", "text": "num-ended", "s": 0}]})
         # words that clients and shells treat specially are lines like any other for the session: answered, session usable afterwards
         for cls in ("TaskPool", "SimpleTaskPool"):
             for word in ("exit", "quit", "EXIT", "Exit", "bye", "close", "disconnect", "help", "?", "q", "stop-server", "shutdown", "\\q", ":q", "logout"):
